@@ -113,7 +113,7 @@ func main() {
 	warm := flag.Bool("warm", false, "pre-build all harness binaries")
 	list := flag.Bool("list", false, "list checks")
 	keep := flag.Bool("keep", false, "keep the scratch directory")
-	only := flag.String("unit", "", "run only units whose name contains this string")
+	only := flag.String("unit", "", "run only units whose name contains this string (=name: exact match)")
 	// allow "check C09 --tier quick": move the positional first argument behind the flags
 	args := os.Args[1:]
 	var pos []string
@@ -268,7 +268,10 @@ func runCheck(chk *Check, tier, replay string, keep bool, only string) int {
 		if u.Tier == "thorough" && tier != "thorough" {
 			continue
 		}
-		if only != "" && !strings.Contains(u.Name, only) {
+		if strings.HasPrefix(only, "=") && u.Name != only[1:] {
+			continue
+		}
+		if only != "" && !strings.HasPrefix(only, "=") && !strings.Contains(u.Name, only) {
 			continue
 		}
 		units = append(units, u)
